@@ -75,8 +75,10 @@ PathOf(st) == [i \in 1..Len(st) |-> <<st[i].target, IF st[i].ctx.idx[st[i].targe
 
 (* ---- alphabet ------------------------------------------------------------------------------------ *)
 Op(op, t, kind, v) == [op |-> op, t |-> t, kind |-> kind, v |-> v]
-PrimVals == [bool |-> {1}, nbits |-> {2}, uint |-> {0, 3}, sint |-> {-1}]
-PrimOps == {Op("prim", t, kd, v) : t \in PrimTargets, kd \in PrimKinds, v \in {0, 1, 2, 3, -1}}
+(* "bytes" (one byte, value 165), "bits" (a 3-bit bit array 1,0,1, value 5) and "uint_lit" (one byte) are the  *)
+(* fixed-width primitives that no VC-2 syntax element places inside a bounded block -- a serdes program may.    *)
+PrimVals == [bool |-> {1}, nbits |-> {2}, uint |-> {0, 3}, sint |-> {-1}, bytes |-> {165}, bits |-> {5}, uint_lit |-> {165}]
+PrimOps == {Op("prim", t, kd, v) : t \in PrimTargets, kd \in PrimKinds, v \in {0, 1, 2, 3, -1, 5, 165}}
 AllOps ==   {o \in PrimOps : o.v \in PrimVals[o.kind]}
        \cup {Op("declare_list", t, "", 0) : t \in ListTargets}
        \cup {Op("enter", t, "", 0) : t \in EnterTargets}
@@ -89,7 +91,10 @@ AllOps ==   {o \in PrimOps : o.v \in PrimVals[o.kind]}
 Ops == {o \in AllOps : o.op \in OpNames}
 
 NBITS == 2
-PrimIO(o) == [op |-> IF o.kind = "bool" THEN "bit" ELSE o.kind, n |-> NBITS, v |-> o.v, s |-> <<>>]
+PrimIO(o) == CASE o.kind = "bytes"    -> [op |-> "bytes", n |-> 1, v |-> 0, s |-> <<o.v>>]
+               [] o.kind = "bits"     -> [op |-> "bitarray", n |-> 3, v |-> 0, s |-> <<1, 0, 1>>]
+               [] o.kind = "uint_lit" -> [op |-> "uintlit", n |-> 1, v |-> o.v, s |-> <<>>]
+               [] OTHER -> [op |-> IF o.kind = "bool" THEN "bit" ELSE o.kind, n |-> NBITS, v |-> o.v, s |-> <<>>]
 PadIO(n, b) == [op |-> "bitarray", n |-> n, v |-> 0, s |-> [i \in 1..n |-> b]]
 
 (* one serialiser call + the deserialiser's mirrored call: result [cur, stack, w, r, err, rv, uses] *)
